@@ -320,7 +320,30 @@ def convert_grows_every_orbit_and_restore_returns_the_third_core(centre: int, c1
     c1 = choose(c1, 0, 5)
     c2 = choose(c2, 0, 6)  # 6: no second assembly
     nb = choose(nb, 1, 2)
-    assume(c2 > c1)
+    assume(c2 > c1)  # the other child orders and the centre-only core: convert_and_restore_in_the_remaining_shapes
+    convert_restore_case(centre, c1, c2, nb, p0, p1, p2, p3, f)
+
+
+@lemma(gen=dict(GEN, c1=(0, 6), c2=(0, 5)), stubs=STUBS, overrides=OVERRIDES, timeout=200)
+def convert_and_restore_in_the_remaining_shapes(c1: int, c2: int, centre: int, nb: int, p0: float, p1: float, p2: float, p3: float, f: float):
+    """the shapes the lemma above leaves out: (a) the assembly added to the core FIRST sits on the LATER cell of the
+    enumeration (child order against location order: c2 < c1), with or without a centre assembly; (b) a third core that
+    holds ONLY the centre assembly (c1 = 6; convert adds nothing, restore must still give back the third-core symmetry
+    and the centre's values - F26, fixed)."""
+    c1 = choose(c1, 0, 6)  # 6: no assembly besides the centre
+    c2 = choose(c2, 0, 5)
+    nb = choose(nb, 1, 2)
+    if c1 == 6:
+        assume(c2 == 0)
+        convert_restore_case(1, 6, 6, nb, p0, p1, p2, p3, f)
+    else:
+        centre = choose(centre, 0, 1)
+        assume(c2 < c1)
+        convert_restore_case(centre, c1, c2, nb, p0, p1, p2, p3, f)
+
+
+def convert_restore_case(centre, c1, c2, nb, p0, p1, p2, p3, f):
+    """c1 / c2: index into CELLS of the first / second non-centre assembly (6: none)"""
     core, r, pool = world(False, True, 3, 3)
     src = []
     if centre == 1:
@@ -331,10 +354,11 @@ def convert_grows_every_orbit_and_restore_returns_the_third_core(centre: int, c1
         if nb == 2:
             a0._children[1].p.power = p3
         src.append(a0)
-    a1 = assembly(1, nb, "002-001")
-    place(core, a1, CELLS[c1][0], CELLS[c1][1])
-    a1._children[0].p.power = p1
-    src.append(a1)
+    if c1 < 6:
+        a1 = assembly(1, nb, "002-001")
+        place(core, a1, CELLS[c1][0], CELLS[c1][1])
+        a1._children[0].p.power = p1
+        src.append(a1)
     if c2 < 6:
         a2 = assembly(2, 1, "002-002")
         place(core, a2, CELLS[c2][0], CELLS[c2][1])
